@@ -45,7 +45,7 @@ LEAN_KEYWORDS = {'open', 'end', 'at', 'from', 'fun', 'let', 'have', 'show', 'in'
 # sorts -> Lean types (inside a family whose header binds I S K)
 LEAN_TYPE = {'img': 'I', 'se': 'S', 'nat': 'Nat', 'int': 'Int', 'bool': 'Bool', 'K': 'K', 'vec': 'List K', 'mode': 'M',
              'arr': 'A', 'natlist': 'List Nat', 'intlist': 'List Int', 'fld': 'X → K', 'bfld': 'X → Bool',
-             'hist': 'H', 'pimg': 'G', 'str': 'String', 'mat': 'List (List K)'}
+             'hist': 'H', 'pimg': 'G', 'str': 'String', 'mat': 'List (List K)', 'bimg': 'B'}
 
 # guard helpers whose calls (as expression statements) are dropped: translator/guards.py extracts them
 GUARD_CALLS = {'_verify_is_integer_type', '_verify_is_floatingpoint_type', '_verify_is_bool', '_verify_is_nonnegative',
@@ -79,8 +79,9 @@ class Prim:
     `args` = sorts of the kept positional arguments, in the Python order; `kw` = keyword name -> position (keywords that may
     be used instead of a position); positional arguments beyond `args` must be plumbing names or string constants."""
 
-    def __init__(self, field, args, ret, kw=None, doc='', elementwise=False, drop_kw=()):
+    def __init__(self, field, args, ret, kw=None, doc='', elementwise=False, drop_kw=(), pos=None):
         self.field, self.args, self.ret, self.kw, self.doc = field, list(args), ret, dict(kw or {}), doc
+        self.pos = list(pos) if pos is not None else list(range(len(args)))   # Python positions of the kept arguments
         self.drop_kw = set(drop_kw)         # reviewed keywords without value-level meaning (dtype= of a conversion, copy=)
         self.elementwise = elementwise      # a numpy ufunc of one argument: on a vector it is `List.map`
 
@@ -235,6 +236,22 @@ class Tr:
             if sa != sb:
                 raise self.err(node, f'arms of different sorts {sa}/{sb}')
             return f'(if {c} then {a} else {b})', sa
+        if isinstance(node, ast.ListComp):
+            if len(node.generators) != 1 or node.generators[0].ifs or node.generators[0].is_async \
+                    or not isinstance(node.generators[0].target, ast.Name):
+                raise self.err(node, 'list comprehension outside the subset')
+            g = node.generators[0]
+            seq, ss = self._E(g.iter, env)
+            elem = {'natlist': 'nat', 'intlist': 'int', 'vec': 'K'}.get(ss)
+            if elem is None:
+                raise self.err(node, f'comprehension over sort {ss}')
+            env2 = dict(env)
+            env2[g.target.id] = elem
+            body, sb = self._E(node.elt, env2)
+            back = {'nat': 'natlist', 'natlit': 'natlist', 'int': 'intlist', 'K': 'vec'}.get(sb)
+            if back is None:
+                raise self.err(node, f'comprehension yields sort {sb}')
+            return f'(List.map (fun {lname(g.target.id)} => {body}) {seq})', back
         if isinstance(node, ast.Call):
             return self.call(node, env, want)
         if isinstance(node, ast.Subscript):
@@ -421,6 +438,10 @@ class Tr:
                 and node.args[0].elts and all(isinstance(r, ast.List) for r in node.args[0].elts):
             rows = ['[' + ', '.join(self.E(e, env, 'K')[0] for e in r.elts) + ']' for r in node.args[0].elts]
             return '[' + ', '.join(rows) + ']', 'mat'
+        if d == 'tuple' and len(node.args) == 1 and not node.keywords:
+            a, sa = self._E(node.args[0], env)
+            if sa in ('natlist', 'intlist'):
+                return a, sa                           # a tuple of indices is its list
         if d == 'float' and len(node.args) == 1 and not node.keywords and 'K' in self.fam.tparams:
             a, s = self._E(node.args[0], env)
             if s == 'K':
@@ -451,8 +472,8 @@ class Tr:
         pos = ([recv] if recv is not None else []) + list(node.args)
         slots = [None] * len(p.args)
         for i, a in enumerate(pos):
-            if i < len(slots):
-                slots[i] = a
+            if i in p.pos:
+                slots[p.pos.index(i)] = a
             elif (isinstance(a, ast.Name) and a.id in self.drop) or (isinstance(a, ast.Constant) and isinstance(a.value, str)):
                 continue                                # destination buffer / function name for the error text
             else:
@@ -829,6 +850,19 @@ SOFT = Family(
         '.dtype.type()': Prim('dtype_cast', ['fld', 'K'], 'K', doc='`f.dtype.type(v)`: the scalar `v` converted to the dtype of `f`'),
     }, extra_params=EMBED)
 
+EXTREMA = Family(
+    'extrema', ['I', 'S', 'B'], '', 'ExtremaPrims',
+    {
+        'get_structuring_elem': Prim('get_structuring_elem', ['img', 'se'], 'se'),
+        '.shape:se': Prim('shape', ['se'], 'natlist'),
+        'setitem': Prim('setitem', ['se', 'natlist', 'bool'], 'se', doc='`Bc[index] = v`'),
+        '_remove_centre': Prim('remove_centre', ['se'], 'se'),
+        '_morph.locmin_max': Prim('locmin_max', ['img', 'se', 'bool'], 'bimg', pos=[0, 1, 3]),
+        '_morph.regmin_max': Prim('regmin_max', ['img', 'se', 'bool'], 'bimg', pos=[0, 1, 3]),
+        'np.ascontiguousarray': Prim('as_bool', ['img'], 'img', drop_kw={'dtype'}, doc='`np.ascontiguousarray(ref, dtype=np.bool_)`'),
+        '_morph.close_holes': Prim('close_holes', ['img', 'se'], 'bimg'),
+    })
+
 HISTO = Family(
     'histogram thresholds', ['H', 'G'], '', 'HistPrims',
     {
@@ -869,8 +903,14 @@ TARGETS = [
     # fuels: both `while` loops run at most N = hist.size times (maxt walks down from N-1, t walks up to at most maxt)
     Target('thresholding.py', 'rc', [('img', 'pimg'), ('ignore_zeros', 'bool')], 'K', RC, fuels=['N', 'N']),
     Target('thresholding.py', 'soft_threshold', [('f', 'fld'), ('tval', 'K')], 'fld', SOFT),
+    Target('morph.py', '_remove_centre', [('Bc', 'se')], 'se', EXTREMA),
+    Target('morph.py', 'locmax', [('f', 'img'), ('Bc', 'se')], 'bimg', EXTREMA),
+    Target('morph.py', 'locmin', [('f', 'img'), ('Bc', 'se')], 'bimg', EXTREMA),
+    Target('morph.py', 'regmax', [('f', 'img'), ('Bc', 'se')], 'bimg', EXTREMA),
+    Target('morph.py', 'regmin', [('f', 'img'), ('Bc', 'se')], 'bimg', EXTREMA),
+    Target('morph.py', 'close_holes', [('ref', 'img'), ('Bc', 'se')], 'bimg', EXTREMA),
 ]
-FAMILIES = [MORPH, CONV, THRESH, HISTO, LAPL, RC, SOFT]
+FAMILIES = [MORPH, CONV, THRESH, HISTO, LAPL, RC, SOFT, EXTREMA]
 
 
 def _find_function(tree, name):
